@@ -10,17 +10,17 @@ CASE_TYPE = "tcase"
 DRIVER_PKG = "cmd/verif_c11"
 SHARD = 200
 
-FIX = ["F11a", "F11b", "F11c"]   # fix_endctx, fix_verify, fix_panic
+FIX = ["F11a", "F11b", "F11c", "F11d"]   # fix_endctx, fix_verify, fix_panic, fix_chunk
 VARIANTS = []
-for a, b, c in itertools.product([False, True], repeat=3):   # same order as all_variants in Check/C11Check.v
-    VARIANTS.append({"name": "endctx=%s,verify=%s,panic=%s" % (("fixed" if a else "current"), ("fixed" if b else "current"),
-                                                              ("fixed" if c else "current")),
-                     "findings": [f for f, fixed in zip(FIX, (a, b, c)) if not fixed]})
-RULE = ("configuration cases = source {dataset, sample, slow} x transform {none, js, js whose transform stage panics (injected by the harness)} x sink "
+for a, b, c, d in itertools.product([False, True], repeat=4):   # same order as all_variants in Check/C11Check.v
+    fx = lambda x: "fixed" if x else "current"
+    VARIANTS.append({"name": "endctx=%s,verify=%s,panic=%s,chunk=%s" % (fx(a), fx(b), fx(c), fx(d)),
+                     "findings": [f for f, fixed in zip(FIX, (a, b, c, d)) if not fixed]})
+RULE = ("configuration cases = source {dataset, sample, slow} x transform {none, js, js with parallelism 10 on pages of 15, js whose transform stage panics (injected by the harness), js that returns no entity} x sink "
         "{devnull, dataset, dataset that does not exist} x trigger {cron, onchange} x job type x handler set {none, log, rerun, "
-        "log+rerun, unknown type, 'Log'} (+ kill for the slow source): the whole lattice (thorough, 864 configurations) or the "
-        "witnesses plus a PRNG sample of 70 (quick), each through Scheduler.AddJob and the real trigger path in its own process; "
-        "barrier cases = 2-8 requesters for ONE job id (mixed flavours) released together by a spinning gate, 30000 (quick) / 100000 (thorough) rounds each, calling raffle.borrowTicket directly; per round the number of tickets held at once; "
+        "log+rerun, unknown type, 'Log'} (+ kill for the slow source): the whole lattice (thorough, 1440 configurations) or the "
+        "witnesses plus a PRNG sample of 55 (quick), each through Scheduler.AddJob and the real trigger path in its own process; "
+        "barrier cases = 2-8 requesters for ONE job id (mixed flavours) released together by a spinning gate, 20000 (quick) / 100000 (thorough) rounds each, calling raffle.borrowTicket directly; per round the number of tickets held at once; "
         "raffle cases = pool sizes x job objects (ids shared between objects, both kinds) x 4-12 goroutines x 20-60 Run calls each; "
         "non-trivial = a wrapper is installed or the run does not succeed (configuration) / at least one refused ticket (raffle)")
 TRUSTED = [
@@ -39,12 +39,12 @@ ASSUMPTIONS = [
 EXHAUSTIVE = {"thorough": True}
 
 SRC = ["dataset", "sample", "slow"]
-TR = ["none", "js", "panic"]
+TR = ["none", "js", "jspar", "panic", "empty"]
 SNK = ["devnull", "dataset", "missing"]
 TRIG = ["cron", "onchange"]
 JT = ["incremental", "fullsync"]
 HS = ["none", "log", "rerun", "logrerun", "bad", "Log"]
-COQ = {"dataset": "SDataset", "sample": "SSample", "slow": "SSlow", "none": "TNone", "js": "TJs", "panic": "TPanic",
+COQ = {"dataset": "SDataset", "sample": "SSample", "slow": "SSlow", "none": "TNone", "js": "TJs", "panic": "TPanic", "jspar": "TJsPar", "empty": "TEmpty",
        "devnull": "KDevNull", "missing": "KMissing", "cron": "GCron", "onchange": "GOnChange", "incremental": "JIncr",
        "fullsync": "JFull"}
 COQ_SNK = {"devnull": "KDevNull", "dataset": "KDataset", "missing": "KMissing"}
@@ -83,13 +83,22 @@ def witness_cases():
         cfg(transform="panic"),                                                # F11c panic under cron
         cfg(transform="panic", trigger="onchange"),
         cfg(transform="panic", jobType="fullsync"),
+        cfg(transform="jspar"), cfg(transform="jspar", source="sample", trigger="onchange"),     # F11d (= F10b): chunk arithmetic
+        # a filtering transform empties the batch, the sink rejects it, log handler: recorded failure, no bisection
+        cfg(source="sample", transform="empty", sink="missing", handlers="log"),
+        cfg(transform="empty", sink="missing", handlers="logrerun", jobType="incremental"),
+        cfg(transform="empty", sink="missing", handlers="log", trigger="onchange"),
+        cfg(transform="empty", sink="missing"), cfg(transform="empty", sink="dataset", handlers="log"),
+        # wrappers without a transform: every wrappedSink method on the fullsync path
+        cfg(jobType="fullsync", handlers="log"), cfg(jobType="fullsync", handlers="logrerun", sink="dataset", source="sample"),
+        cfg(handlers="log", sink="dataset"), cfg(jobType="fullsync", handlers="Log", trigger="cron", sink="dataset"),
         cfg(sink="missing"), cfg(sink="missing", handlers="log"), cfg(source="slow", kill=True),
         cfg(trigger="onchange", handlers="Log", sink="missing"),
         raffle(1, 2, [(0, False), (0, True), (1, False), (2, False), (3, True), (3, True)], 8, 40),
         raffle(5, 10, [(0, False), (0, False), (1, True), (1, False)], 6, 30),
         # simultaneous requests for ONE job id released by a spinning gate: never two tickets at once
-        barrier(2, 3, [False, True, False, True, False, False, True, False], 30000),
-        barrier(5, 10, [False, False], 30000),
+        barrier(2, 3, [False, True, False, True, False, False, True, False], 20000),
+        barrier(5, 10, [False, False], 20000),
     ]
 
 
@@ -118,9 +127,9 @@ def gen(rng, tier):
     if tier == "thorough":
         return list(lattice()) + gen_raffle(rng, 40) + gen_barrier(rng, 6, 100000)
     lat = list(lattice())
-    n = 70 if tier == "quick" else 200
+    n = 55 if tier == "quick" else 200
     out = [lat[rng.below(len(lat))] for _ in range(n)]
-    return out + gen_raffle(rng, 12 if tier == "quick" else 40) + gen_barrier(rng, 1 if tier == "quick" else 4, 30000)
+    return out + gen_raffle(rng, 12 if tier == "quick" else 40) + gen_barrier(rng, 1 if tier == "quick" else 4, 20000)
 
 
 DIED = {"accepted": False, "live": "died", "result": "none", "stored": "none", "ticket": False, "log": [], "finalF": -1,
@@ -186,12 +195,14 @@ def attribute(c, o):
     if c["kind"] != "cfg" or not o.get("accepted") or o.get("live") == "alive":
         return None
     d = o.get("detail", "")
-    if "stack overflow" in d and c["transform"] != "none" and has_log(c):
+    if "stack overflow" in d and "EndStoreContext" in d and c["transform"] != "none" and has_log(c):
         return "F11a"
     if "nil pointer" in d and c["trigger"] == "onchange" and has_log(c):
         return "F11b"
     if "injected panic" in d and c["transform"] == "panic":
-        return "F11c"
+        return "F11c"      # only the panic the harness injected is explained by F11c; any other panic is a new defect
+    if "makeslice" in d and c["transform"] == "jspar" and c["jobType"] == "incremental":
+        return "F11d"
     return None
 
 
